@@ -30,7 +30,7 @@ ASSUMPTIONS = [
 
 CTXS = prog.CLS_NAMES
 POSITIONS = ["from", "join", "in", "not_in", "cmp", "select", "cte", "insert_select", "create_as", "setop_left", "setop_right", "having_cmp", "setop_in_from",
-             "in_joined", "select_in", "select_cmp", "on_in"]
+             "in_joined", "select_in", "select_cmp", "on_in", "returning_cmp", "returning_item", "returning_cmp_delete"]
 # (function-argument and arithmetic-operand embeddings exist in outer_program for experiments; the property lists neither, so they are not checked)
 OUT = {"OT": ["tbl", "outer_t", None, None], "OU": ["tbl", "outer_u", None, None]}
 
@@ -69,6 +69,12 @@ def outer_program(cls, pos, inner, alias):
         steps = [["from_", [["src", "OT"]]], ["select", [OA, ["as", ["in", OA, q], "flag"]]]]
     elif pos == "select_cmp":
         steps = [["from_", [["src", "OT"]]], ["select", [["gt", OA, q]]]]
+    elif pos in ("returning_cmp", "returning_item", "returning_cmp_delete"):
+        # RETURNING (PostgreSQL) is a select list of its own: a comparison operand / an item there
+        if cls != "postgresql":
+            return None
+        head = [["from_", [["src", "OT"]]], ["delete", []]] if pos == "returning_cmp_delete" else [["into", [["src", "OT"]]], ["insert", [["raw", 1]]]]
+        steps = head + [["returning", [q if pos == "returning_item" else ["gt", OA, q]]]]
     elif pos == "select_fn":
         steps = [["from_", [["src", "OT"]]], ["select", [["as", ["fn", "Coalesce", [q, ["raw", 0]]], "cf"]]]]
     elif pos == "where_fn":
@@ -199,6 +205,8 @@ def check(case, pos, par):
         if pos == "setop_in_from" and (is_setop or case["ncols"] != 1):
             return [("__na__", "")]
         p = outer_program(cls, pos, inner, case["alias"])
+        if p is None:
+            return [("__na__", "")]
         need_parens = True if pos != "setop_in_from" else cls not in ("mysql", "sqlite")
         alias = case["alias"] if pos != "setop_in_from" else None  # in a set operation the operand's alias defines nothing
     try:
@@ -235,7 +243,7 @@ def check(case, pos, par):
             if alias is not None and not nxt_is_alias:
                 why = "alias_missing"
                 continue
-        elif pos == "select":
+        elif pos in ("select", "returning_item"):
             if alias is not None and not nxt_is_alias:
                 why = "alias_missing"
                 continue
